@@ -271,4 +271,24 @@ def sepB (m : Model) (τ : Rat) : Bool :=
 def simplexB (n : Nat) (b : Vec) : Bool :=
   allLt n (fun s => decide (0 ≤ b.get s)) && decide (sumTo n b.get = 1)
 
+/-! ## L3 checker for clause (i): every returned vector is a genuine backup of the previous returned list -/
+
+/-- equal on the first n entries (the only ones a dot product over n states reads) -/
+def vecEqN (n : Nat) (a b : Vec) : Bool := allLt n (fun s => decide (a.get s = b.get s))
+
+def memN (n : Nat) (l : List Vec) (v : Vec) : Bool := l.any (fun w => vecEqN n w v)
+
+/-- every vector of `cur` is (entrywise) a member of the full backup of `prev` -/
+def checkBackupStep (m : Model) (τ : Rat) (prev cur : List Vec) : Bool :=
+  !cur.isEmpty && cur.all (fun α => memN m.S (backupAll m τ prev) α)
+
+/-- the chain of lists returned for timesteps 1, 2, … starting from `prev` -/
+def checkChain (m : Model) (τ : Rat) : List Vec → List (List Vec) → Bool
+  | _, [] => true
+  | prev, cur :: rest => checkBackupStep m τ prev cur && checkChain m τ cur rest
+
+def lastOf (prev : List Vec) : List (List Vec) → List Vec
+  | [] => prev
+  | cur :: rest => lastOf cur rest
+
 end AITB.POMDP
